@@ -24,9 +24,12 @@
 (*         preserve: BOOLEAN,                                                                                  *)
 (*         node    : [vars : key -> VAL      \* Rally's own node variables as derived from its start arguments  *)
 (*                    default_data, home : STRING,                                                             *)
-(*                    watch : Seq([p : STRING, inHome : BOOLEAN (below home), pre : BOOLEAN (string prefix home)])]] *)
+(*                    watch : Seq([p : STRING, inHome : BOOLEAN (below home), pre : BOOLEAN (string prefix home)])], *)
+(*         more    : Seq([vars, default_data, home])] \* 2nd, 3rd ... node provisioned from the SAME composed Car object *)
 (* out  = [err, names, paths, vars, final : [captured, vars], tree : path -> Seq(SEG), dataPaths, home,         *)
-(*         after : [exists : watched path -> BOOLEAN, same : BOOLEAN]]                                         *)
+(*         after : [exists : watched path -> BOOLEAN, same : BOOLEAN],                                         *)
+(*         more  : Seq([err, final, tree, dataPaths, home, homeExists]),  \* per further node                  *)
+(*         varsAfter : key -> VAL]              \* Car.variables after every node has been provisioned          *)
 (* SEG  = [t : cid, vals : Seq(Seq(STRING))]  one rendering of a template / one verbatim blob (vals = <<>>)     *)
 (***************************************************************************)
 EXTENDS Integers, Sequences, FiniteSets, TLC
@@ -81,13 +84,16 @@ DocKeys(inp) == DOMAIN inp.params \cup UNION {DOMAIN inp.cars[i].vars : i \in DO
 DocVars(inp, bs) == [k \in DocKeys(inp) |-> DocVar(inp, bs, k)]
 
 \* data_paths is the one node variable with documented special handling: the user may provide it, else Rally determines it
-DocDataPaths(inp, vars) == IF "data_paths" \in DOMAIN vars THEN vars["data_paths"].v ELSE <<inp.node.default_data>>
+\* (nd: the record of the node that is provisioned - several nodes of one host are provisioned from the one composed car)
+DocDataPathsN(nd, vars) == IF "data_paths" \in DOMAIN vars THEN vars["data_paths"].v ELSE <<nd.default_data>>
+DocDataPaths(inp, vars) == DocDataPathsN(inp.node, vars)
 \* Rally's own node variables cannot be overridden
-DocFinal(inp, vars) ==
-    [k \in DOMAIN vars \cup DOMAIN inp.node.vars \cup {"data_paths"} |->
-        IF k = "data_paths" THEN L(DocDataPaths(inp, vars))
-        ELSE IF k \in DOMAIN inp.node.vars THEN inp.node.vars[k]
+DocFinalN(nd, vars) ==
+    [k \in DOMAIN vars \cup DOMAIN nd.vars \cup {"data_paths"} |->
+        IF k = "data_paths" THEN L(DocDataPathsN(nd, vars))
+        ELSE IF k \in DOMAIN nd.vars THEN nd.vars[k]
         ELSE vars[k]]
+DocFinal(inp, vars) == DocFinalN(inp.node, vars)
 
 Provided(inp, paths) == UNION {{f.path : f \in ToSet(inp.bases[b].tree)} : b \in ToSet(paths)}
 Providers(inp, paths, p) == SelectSeq(paths, LAMBDA b : Has(inp.bases[b].tree, p))
@@ -104,12 +110,33 @@ DocCleanup(inp, dps, after) ==
     IF inp.preserve THEN after.same
     ELSE ~after.exists[inp.node.home] /\ \A i \in DOMAIN dps : ~after.exists[dps[i]]
 
+\* the per-node clauses: r = [final, tree, dataPaths, home] is what provisioning node nd from the composed car (documented
+\* variables vars, config bases paths) produced: THAT node's own names / ports / paths, whichever node was provisioned before
+NodeFails(inp, nd, r, paths, vars) ==
+    LET fin == DocFinalN(nd, vars)
+        prov == Provided(inp, paths)
+        wrong(K, m, exp) == \E k \in K : k \notin DOMAIN m \/ m[k] # exp[k]
+    IN
+       (IF r.final.captured /\ wrong(DOMAIN nd.vars, r.final.vars, fin) THEN {"NodeVariablesNotOverridable"} ELSE {})
+    \cup (IF r.final.captured /\ wrong({"data_paths"}, r.final.vars, fin) THEN {"DataPathsUserOrDefault"} ELSE {})
+    \cup (IF r.final.captured /\ wrong(DOMAIN vars \ (DOMAIN nd.vars \cup {"data_paths"}), r.final.vars, fin) THEN {"TemplatesSeeCarVariables"} ELSE {})
+    \cup (IF \E p \in prov : p \notin DOMAIN r.tree THEN {"SameRelativePath"} ELSE {})
+    \cup (IF \E p \in prov \cap DOMAIN r.tree : KindOf(inp, paths, p) = "text" /\ r.tree[p] # DocContent(inp, paths, fin, p) THEN {"TextRenderedAndAppended"} ELSE {})
+    \cup (IF \E p \in prov \cap DOMAIN r.tree : KindOf(inp, paths, p) = "binary" /\ r.tree[p] # DocContent(inp, paths, fin, p) THEN {"BinaryVerbatimLastWins"} ELSE {})
+
+\* a further node provisioned from the same Car object: the same clauses with ITS node record; its NodeConfiguration (what cleanup
+\* is called with) names its own installation and data paths; its installation is wiped unless preserve is set
+LaterNodeFails(inp, nd, r, paths, vars) ==
+    IF r.err # "none" THEN {"NoSpuriousError", "LaterNodeOfSameCar"}
+    ELSE LET f == NodeFails(inp, nd, r, paths, vars)
+                  \cup (IF r.home = nd.home /\ r.dataPaths = DocDataPathsN(nd, vars) THEN {} ELSE {"NodeConfigurationNamesOwnPaths"})
+                  \cup (IF inp.preserve \/ ~r.homeExists THEN {} ELSE {"CleanupAllOrNothing"})
+         IN  IF f = {} THEN {} ELSE f \cup {"LaterNodeOfSameCar"}
+
 \* the clauses of C13 that the result o violates when config base variables are ranked in the order bs
 FailsUnder(inp, o, bs) ==
     LET paths == ConfigPaths(inp)
         vars == DocVars(inp, bs)
-        fin == DocFinal(inp, vars)
-        prov == Provided(inp, paths)
         fromCar == {k \in DocKeys(inp) \ DOMAIN inp.params : \E i \in DOMAIN inp.cars : k \in DOMAIN inp.cars[i].vars}
         fromBase == (DocKeys(inp) \ DOMAIN inp.params) \ fromCar
         wrong(K, m, exp) == \E k \in K : k \notin DOMAIN m \/ m[k] # exp[k]
@@ -121,13 +148,12 @@ FailsUnder(inp, o, bs) ==
     \cup (IF wrong(DOMAIN inp.params, o.vars, vars) THEN {"CarParamsOverrideAll"} ELSE {})
     \cup (IF wrong(fromCar, o.vars, vars) THEN {"LaterCarOverridesEarlierAndBases"} ELSE {})
     \cup (IF wrong(fromBase, o.vars, vars) THEN {"BaseVariablesInOrder"} ELSE {})
-    \cup (IF o.final.captured /\ wrong(DOMAIN inp.node.vars, o.final.vars, fin) THEN {"NodeVariablesNotOverridable"} ELSE {})
-    \cup (IF o.final.captured /\ wrong({"data_paths"}, o.final.vars, fin) THEN {"DataPathsUserOrDefault"} ELSE {})
-    \cup (IF o.final.captured /\ wrong(DOMAIN vars \ (DOMAIN inp.node.vars \cup {"data_paths"}), o.final.vars, fin) THEN {"TemplatesSeeCarVariables"} ELSE {})
-    \cup (IF \E p \in prov : p \notin DOMAIN o.tree THEN {"SameRelativePath"} ELSE {})
-    \cup (IF \E p \in prov \cap DOMAIN o.tree : KindOf(inp, paths, p) = "text" /\ o.tree[p] # DocContent(inp, paths, fin, p) THEN {"TextRenderedAndAppended"} ELSE {})
-    \cup (IF \E p \in prov \cap DOMAIN o.tree : KindOf(inp, paths, p) = "binary" /\ o.tree[p] # DocContent(inp, paths, fin, p) THEN {"BinaryVerbatimLastWins"} ELSE {})
+    \cup NodeFails(inp, inp.node, o, paths, vars)
     \cup (IF DocCleanup(inp, DocDataPaths(inp, vars), o.after) THEN {} ELSE {"CleanupAllOrNothing"})
+    \cup (IF Len(o.more) = Len(inp.more) THEN {} ELSE {"NoSpuriousError", "LaterNodeOfSameCar"})
+    \cup UNION {LaterNodeFails(inp, inp.more[i], o.more[i], paths, vars) : i \in DOMAIN inp.more \cap DOMAIN o.more}
+    \* the composed car is what the cars, bases and car params say - provisioning nodes from it does not change it
+    \cup (IF MapEq(o.vars, o.varsAfter) THEN {} ELSE {"CarUnchangedByProvisioning"})
 
 L1Fails(inp, o) ==
     LET a == FailsUnder(inp, o, Mentions(inp)) IN
@@ -172,11 +198,22 @@ LoadCar(inp) ==
          paths |-> r.paths,
          vars |-> IF Variant = "base_over_car" THEN Over(r.cvars, r.bvars) ELSE Over(r.bvars, r.cvars)]
 
-\* ElasticsearchInstaller._data_paths / .variables, BareProvisioner._provisioner_variables (no plugins)
-CodeDataPaths(inp, cv) == IF "data_paths" \in DOMAIN cv THEN cv["data_paths"].v ELSE <<inp.node.default_data>>
-ProvisionerVars(inp, cv) ==
-    LET defaults == Over(inp.node.vars, [k \in {"data_paths"} |-> L(CodeDataPaths(inp, cv))])
-    IN  IF Variant = "internal_first" THEN Over(defaults, cv) ELSE Over(cv, defaults)
+\* ElasticsearchInstaller._data_paths / .variables, BareProvisioner._provisioner_variables (no plugins); nd = node record
+CodeDataPathsN(nd, cv) == IF "data_paths" \in DOMAIN cv THEN cv["data_paths"].v ELSE <<nd.default_data>>
+CodeDataPaths(inp, cv) == CodeDataPathsN(inp.node, cv)
+DefaultsN(nd, cv) == Over(nd.vars, [k \in {"data_paths"} |-> L(CodeDataPathsN(nd, cv))])
+ProvisionerVarsN(nd, cv) ==
+    IF Variant = "internal_first" THEN Over(DefaultsN(nd, cv), cv) ELSE Over(cv, DefaultsN(nd, cv))
+ProvisionerVars(inp, cv) == ProvisionerVarsN(inp.node, cv)
+
+\* all nodes of the host are provisioned one after the other from ONE Car object (mechanic.create / Mechanic.start_engine);
+\* `variables` copies car.variables into a fresh dict, so node i sees the car as composed (seeded fault leak_defaults: the node
+\* defaults are written into the shared car and the next node finds them there)
+Nodes(inp) == <<inp.node>> \o inp.more
+RECURSIVE CarVarsAt(_, _, _)
+CarVarsAt(inp, cv, i) ==
+    IF i = 1 \/ Variant # "leak_defaults" THEN cv
+    ELSE LET prev == CarVarsAt(inp, cv, i - 1) IN Over(prev, DefaultsN(Nodes(inp)[i - 1], prev))
 
 \* _apply_config: every file of the template tree; text: open(target, "a").write(rendering); else shutil.copy
 Put(fs, p, c) == [q \in DOMAIN fs \cup {p} |-> IF q = p THEN c ELSE fs[q]]
@@ -206,18 +243,29 @@ CodeAfter(inp, dps) ==
     IN  [exists |-> [p \in {x.p : x \in ToSet(inp.node.watch)} |-> ~gone(p)], same |-> inp.preserve /\ Variant # "ignore_preserve"]
 
 ErrOut(e) == [err |-> e, names |-> <<>>, paths |-> <<>>, vars |-> NoVars, final |-> [captured |-> FALSE, vars |-> NoVars],
-              tree |-> NoVars, dataPaths |-> <<>>, home |-> "", after |-> [exists |-> NoVars, same |-> FALSE]]
+              tree |-> NoVars, dataPaths |-> <<>>, home |-> "", after |-> [exists |-> NoVars, same |-> FALSE],
+              more |-> <<>>, varsAfter |-> NoVars]
 
 Code(inp) ==
     LET lc == LoadCar(inp) IN
     IF lc.err # "none" THEN ErrOut(lc.err)
-    ELSE LET fin == ProvisionerVars(inp, lc.vars)
-             dps == CodeDataPaths(inp, lc.vars)
+    ELSE LET cv1 == CarVarsAt(inp, lc.vars, 1)
+             fin == ProvisionerVars(inp, cv1)
+             dps == CodeDataPaths(inp, cv1)
+             later(i) == LET nd == inp.more[i]
+                             cv == CarVarsAt(inp, lc.vars, i + 1)
+                             f == ProvisionerVarsN(nd, cv)
+                         IN  [err |-> "none", final |-> [captured |-> TRUE, vars |-> f],
+                              tree |-> ApplyBases(inp, Unpacked(inp), lc.paths, f),
+                              dataPaths |-> CodeDataPathsN(nd, cv), home |-> nd.home,
+                              homeExists |-> inp.preserve /\ Variant # "ignore_preserve"]
          IN  [err |-> "none", names |-> CarNames(inp), paths |-> lc.paths, vars |-> lc.vars,
               final |-> [captured |-> TRUE, vars |-> fin],
               tree |-> ApplyBases(inp, Unpacked(inp), lc.paths, fin),
               dataPaths |-> dps, home |-> inp.node.home,
-              after |-> CodeAfter(inp, dps)]
+              after |-> CodeAfter(inp, dps),
+              more |-> [i \in DOMAIN inp.more |-> later(i)],
+              varsAfter |-> CarVarsAt(inp, lc.vars, Len(inp.more) + 2)]
 
 \* L2: a recorded result is the transcription's result
 Conforms(inp, o) ==
@@ -227,6 +275,14 @@ Conforms(inp, o) ==
     /\ MapEq(o.tree, c.tree)
     /\ o.dataPaths = c.dataPaths /\ o.home = c.home
     /\ MapEq(o.after.exists, c.after.exists) /\ o.after.same = c.after.same
+    /\ Len(o.more) = Len(c.more)
+    /\ \A i \in DOMAIN c.more :
+          /\ o.more[i].err = c.more[i].err
+          /\ (o.more[i].final.captured => MapEq(o.more[i].final.vars, c.more[i].final.vars))
+          /\ MapEq(o.more[i].tree, c.more[i].tree)
+          /\ o.more[i].dataPaths = c.more[i].dataPaths /\ o.more[i].home = c.more[i].home
+          /\ o.more[i].homeExists = c.more[i].homeExists
+    /\ MapEq(o.varsAfter, c.varsAfter)
 
 -----------------------------------------------------------------------------
 VARIABLES inp, out, done
